@@ -1205,6 +1205,26 @@ def probes(rng, tier):
     return out
 
 
-LEVEL_TEXT = ''
-LEVEL_NOTE = ''
-TECHNIQUE = 'Coq proof by structural induction over a deep embedding of operator arithmetic (abstract commutative ring) + in-Coq structural/value correspondence'
+LEVEL_TEXT = ('Proof: over a deep embedding of operator arithmetic (source expressions with + - neg * @ / ** and '
+              'operator/vector/scalar operands on either side; the object tree the overloads build, incl. scalar '
+              'merging, the linear shortcut A*a -> a*A, OperatorRightScalarMult.__mul__, the Functional overloads with '
+              'their zero-scalar shortcuts, the reflected-subclass dispatch rule) Coq proves by structural induction, '
+              'for EVERY expression tree of any depth over arbitrary linear/nonlinear/functional leaves and any '
+              'commutative ring of scalars (closed instances at R and C): whenever the overloads accept the expression, '
+              'the built object evaluates out-of-place and in-place to the documented table applied recursively, its '
+              'domain/range are those implied by the expression, an object flagged linear denotes a linear map, and '
+              'an expression whose operands imply linearity is flagged linear (in full for the repaired '
+              'FunctionalRightVectorMult; for the current code except under `f * v`, which is proved to drop the flag '
+              '- recorded finding). The model is tied to /repo on every run by an in-Coq correspondence on random '
+              'well-typed and ill-typed trees over rn and cn: whole object tree (classes, merged scalars, vectors), '
+              'domain, range, is_linear, error class, and values in and out of place.')
+LEVEL_NOTE = ('Trusted/validated, not proved: the transcription of the overloads into C04/Model.v (validated by the '
+              'structural+value correspondence, depth <= 4 quick / 7 thorough, all anchored branches reachable through '
+              'arithmetic are covered); leaves are pure functions and a leaf flagged linear is linear (premise of the '
+              'theorems, shown satisfiable by the pool; tested on 40 odl operator classes by probes: RealPart/ImagPart '
+              'on complex spaces violate it for complex scalars - recorded findings); which expressions are REJECTED is '
+              'compared case by case and probed against a reference typing, not proved; exact arithmetic (rounding, '
+              'overflow, NaN out of scope); heap aliasing of in-place temporaries is C03/C10. Axioms: classical reals '
+              '+ funext only in the closed R/C instances; the abstract-ring theorems are closed under the global context.')
+TECHNIQUE = ('Coq proof by structural induction over a deep embedding of operator arithmetic (abstract commutative '
+             'ring, instantiated at R and C) + in-Coq structural/value correspondence + reference-interpreter probes')
